@@ -160,72 +160,7 @@ func RunKdc(sc KdcScenario, prefix []int, logOn bool) *KdcResult {
 			}
 			kc.pc = gwEnd
 			kc.Reply = kdcReply(idx, network)
-			vsched.GoDaemon(fmt.Sprintf("kdc%d-%s", idx, network), func() {
-				buf := make([]byte, 1<<18)
-				readReq := func() bool {
-					// read until the whole request arrived (TCP: prefix says how much)
-					for {
-						nn, err := kdcEnd.Read(buf)
-						kc.Got = append(kc.Got, buf[:nn]...)
-						if err != nil {
-							return false
-						}
-						kc.Reached = true
-						if network == "udp" || (len(kc.Got) >= 4 && len(kc.Got) >= 4+int(binary.BigEndian.Uint32(kc.Got))) {
-							return true
-						}
-					}
-				}
-				switch beh {
-				case "close":
-					kdcEnd.Close()
-				case "silent":
-					for {
-						nn, err := kdcEnd.Read(buf)
-						kc.Got = append(kc.Got, buf[:nn]...)
-						if err != nil {
-							return
-						}
-					}
-				case "reply", "reply-close":
-					if readReq() {
-						kdcEnd.Write(kc.Reply)
-					}
-					if beh == "reply-close" {
-						kdcEnd.Close()
-					} else {
-						for {
-							if _, err := kdcEnd.Read(buf); err != nil {
-								return
-							}
-						}
-					}
-				case "reply-keepopen":
-					if readReq() {
-						kdcEnd.Write(kc.Reply)
-					}
-					for {
-						if _, err := kdcEnd.Read(buf); err != nil {
-							return
-						}
-					}
-				case "reply-two-writes":
-					if readReq() {
-						kdcEnd.Write(kc.Reply[:6])
-						kdcEnd.Write(kc.Reply[6:])
-					}
-					for {
-						if _, err := kdcEnd.Read(buf); err != nil {
-							return
-						}
-					}
-				case "half-close":
-					if readReq() {
-						kdcEnd.Write(kc.Reply[:len(kc.Reply)/2])
-					}
-					kdcEnd.Close()
-				}
-			})
+			vsched.GoDaemon(fmt.Sprintf("kdc%d-%s", idx, network), func() { kdcPlay(kc, kdcEnd, network, beh) })
 			return gwEnd, nil
 		}
 		if sc.FirstRealm != "" {
@@ -254,6 +189,74 @@ func RunKdc(sc KdcScenario, prefix []int, logOn bool) *KdcResult {
 	})
 	res.X = x
 	return res
+}
+
+// kdcPlay is the scripted KDC on one connection.
+func kdcPlay(kc *kdcConn, kdcEnd *vnet.PipeConn, network, beh string) {
+	buf := make([]byte, 1<<18)
+	readReq := func() bool {
+		// read until the whole request arrived (TCP: prefix says how much)
+		for {
+			nn, err := kdcEnd.Read(buf)
+			kc.Got = append(kc.Got, buf[:nn]...)
+			if err != nil {
+				return false
+			}
+			kc.Reached = true
+			if network == "udp" || (len(kc.Got) >= 4 && len(kc.Got) >= 4+int(binary.BigEndian.Uint32(kc.Got))) {
+				return true
+			}
+		}
+	}
+	switch beh {
+	case "close":
+		kdcEnd.Close()
+	case "silent":
+		for {
+			nn, err := kdcEnd.Read(buf)
+			kc.Got = append(kc.Got, buf[:nn]...)
+			if err != nil {
+				return
+			}
+		}
+	case "reply", "reply-close":
+		if readReq() {
+			kdcEnd.Write(kc.Reply)
+		}
+		if beh == "reply-close" {
+			kdcEnd.Close()
+		} else {
+			for {
+				if _, err := kdcEnd.Read(buf); err != nil {
+					return
+				}
+			}
+		}
+	case "reply-keepopen":
+		if readReq() {
+			kdcEnd.Write(kc.Reply)
+		}
+		for {
+			if _, err := kdcEnd.Read(buf); err != nil {
+				return
+			}
+		}
+	case "reply-two-writes":
+		if readReq() {
+			kdcEnd.Write(kc.Reply[:6])
+			kdcEnd.Write(kc.Reply[6:])
+		}
+		for {
+			if _, err := kdcEnd.Read(buf); err != nil {
+				return
+			}
+		}
+	case "half-close":
+		if readReq() {
+			kdcEnd.Write(kc.Reply[:len(kc.Reply)/2])
+		}
+		kdcEnd.Close()
+	}
 }
 
 var goodTCP = map[string]bool{"reply-close": true, "reply-keepopen": true, "reply-two-writes": true}
@@ -410,7 +413,7 @@ func c20Scenarios(thorough bool) []KdcScenario {
 func c20(env *Env, rep *Report) {
 	scs := c20Scenarios(env.thorough())
 	rep.Rule = fmt.Sprintf("%d request scenarios against the real kdcproxy handler with scripted KDC connections: 1 KDC: realms {default, absent, second, unknown; for two sizes also a child realm with its own KDC and an unconfigured realm below a [domain_realm] suffix of the parent realm} x Kerberos payload sizes {0,1,3,4,5,100,1500,65535,128KiB-32} x UDP behaviour {reply, silent, refuse} x TCP behaviour {reply then close, reply and keep open, reply in two writes, half a reply then close, close at once, silent, refuse}; 2 and 3 KDCs: every combination of those behaviours (quick: 3 KDCs without two-writes/close-at-once). "+
-		"Each runs under the default schedule with deadlines firing at quiescence; selected scenarios additionally under every schedule of handler, reply readers and KDC threads up to the preemption bound. Oracle: KDCs of the right realm receive exactly the embedded message (TCP with, UDP without the 4-byte prefix); if any connection delivers a complete reply the response is 200 and its kerb-message is exactly one KDC's reply (length-prefixed); otherwise an error status; always an HTTP response and no goroutine left. Histories: 32 ordered pairs of requests in one process (first: each realm form, answered or not; second: each realm form), the second judged like a first request. Malformed requests are part of C10(d). Binding: the real rdpgw binary with a kerberos configuration and scripted KDCs on loopback TCP/UDP sockets (realms whose KDC replies over TCP, over UDP, stays silent, refuses TCP, truncates its reply; unknown realm; other methods; malformed bodies): every request gets an HTTP response with the status and bytes above. distinct_nontrivial = distinct scenarios.", len(scs))
+		"Each runs under the default schedule with deadlines firing at quiescence; selected scenarios additionally under every schedule of handler, reply readers and KDC threads up to the preemption bound. Oracle: KDCs of the right realm receive exactly the embedded message (TCP with, UDP without the 4-byte prefix); if any connection delivers a complete reply the response is 200 and its kerb-message is exactly one KDC's reply (length-prefixed); otherwise an error status; always an HTTP response and no goroutine left. Histories: 32 ordered pairs of requests in one process (first: each realm form, answered or not; second: each realm form), the second judged like a first request. Two requests at the same time (same realm, two realms, parent and child realm; KDCs that reply, stay silent, refuse, reply half) under every schedule up to the deviation bound: each is answered as if alone, by the reply of a connection that received its own message, without waiting for the other's deadline, and every KDC connection is closed. Malformed requests are part of C10(d). Binding: the real rdpgw binary with a kerberos configuration and scripted KDCs on loopback TCP/UDP sockets (realms whose KDC replies over TCP, over UDP, stays silent, refuses TCP, truncates its reply; unknown realm; other methods; malformed bodies): every request gets an HTTP response with the status and bytes above. distinct_nontrivial = distinct scenarios.", len(scs))
 	rep.Assumptions = append(rep.Assumptions,
 		"a UDP write of more than 65507 bytes fails with EMSGSIZE, as on a real socket",
 		"KDC order is randomised by gokrb5 (math/rand) and by map iteration: behaviours are assigned to connections in dial order, so the execution structure does not depend on it",
@@ -422,6 +425,9 @@ func c20(env *Env, rep *Report) {
 	}
 	rep.Bounds = map[string]any{"preemption_bound_for_explored_1kdc_scenarios": bound, "deviation_bound_for_explored_2kdc_scenarios": bound}
 	if env.Replay != nil {
+		if c20PairReplay(env, rep) {
+			return
+		}
 		name, _ := env.Replay["scenario"].(string)
 		for _, sc := range c20Scenarios(true) {
 			if sc.Name == name {
@@ -449,6 +455,7 @@ func c20(env *Env, rep *Report) {
 		return
 	}
 	distinct := bindKdc(rep, env)
+	distinct += c20PairExplore(env, rep, bound)
 	maxEx := 40000
 	if env.thorough() {
 		maxEx = 400000
